@@ -17,8 +17,7 @@ RULE = ("inputs: example files (both versions), generated LASFiles (C03 generato
         "layout option.")
 ASSUMPTIONS = [
     "an input that cannot be read, or cannot be written under either configuration, is rejected (outside the property)",
-    "sources with text samples containing blanks (open finding D17) or purely numeric units (open finding D34) are "
-    "excluded by construction and counted",
+    "sources with text samples containing blanks (open finding D17) are excluded by construction and counted",
 ]
 
 SKIP = {("Version", "VERS"), ("Version", "WRAP")}
@@ -42,7 +41,7 @@ def oracle(case):
             out.rejected = True
             out.cls("unreadable")
             return out
-        if text_with_blanks(las) or numeric_unit(las):
+        if text_with_blanks(las):
             out.excluded = True
             out.cls("excluded-open-finding")
             return out
